@@ -47,6 +47,27 @@ def mk_map(m):
         (yaml.ScalarNode(PRE + 'str', k), mk_value_node(v)) for k, v in m])
 
 
+def mk_map_shared(m):
+    """The same mapping as a composed document would give it: every node has
+    start and end marks, and equal scalar values are ONE node object (as with
+    `a: &x 1` / `b: *x`), so that an in-place edit of a value leaks."""
+    def mark(i, col):
+        return yaml.Mark('<verif>', 0, i, col, None, None)
+    cache = {}
+    items = []
+    for i, (k, v) in enumerate(m):
+        vn = cache.get(json.dumps(v)) if v[0] == 's' else None
+        if vn is None:
+            vn = mk_value_node(v)
+            vn.start_mark, vn.end_mark = mark(i, 4), mark(i, 8)
+            if v[0] == 's':
+                cache[json.dumps(v)] = vn
+        kn = yaml.ScalarNode(PRE + 'str', k, mark(i, 0), mark(i, 2))
+        items.append((kn, vn))
+    return yaml.MappingNode(PRE + 'map', items, mark(0, 0),
+                            mark(len(m), 0))
+
+
 def proj_val(n):
     if isinstance(n, yaml.ScalarNode):
         t = n.tag
@@ -79,9 +100,17 @@ PYTYPE = {'str': str, 'int': int, 'float': float, 'bool': bool, 'null': None,
 
 
 def run_history(case):
+    errs = run_history_on(case, mk_map)
+    if not errs:
+        errs = ['(nodes with marks, equal scalars shared) ' + e
+                for e in run_history_on(case, mk_map_shared)]
+    return errs
+
+
+def run_history_on(case, make):
     y = Y()
     init = case['init'] if isinstance(case['init'], list) else []
-    node = y.Node(mk_map(init))
+    node = y.Node(make(init))
     errs = []
     for i, h in enumerate(case['hist']):
         op, args, exp = h['op'], h['args'], h['ret']
